@@ -136,7 +136,7 @@ def validator_rejects(spec, value):
     vid = spec.get("validator")
     if not vid or value is None:
         return False
-    if vid == "neg":
+    if vid in ("neg", "negk"):
         return _neg_predicate(value)
     return False
 
